@@ -8,7 +8,7 @@ import parserutil
 from core import hx, exc_name
 
 ID = 'C06'
-MODULES = ['Httoop.Props.C06', 'Httoop.Props.C06Invariant', 'Httoop.Props.C06Host', 'Httoop.Props.C06Trailers']
+MODULES = ['Httoop.Props.C06', 'Httoop.Props.C06Invariant', 'Httoop.Props.C06Host', 'Httoop.Props.C06Trailers', 'Httoop.Props.C06HostInvariant']
 THEOREMS = [
 	'Httoop.Parser.fixed_path_clean',
 	'Httoop.Parser.delivered_path_clean',
@@ -32,6 +32,11 @@ THEOREMS = [
 	'Httoop.Parser.parseTrailers_host_untouched',
 	'Httoop.Parser.tree_env_host_forbidden',
 	'Httoop.Parser.host_trailer_witness',
+	'Httoop.Parser.delivered_requests_hosted',
+	'Httoop.Parser.delivered_requests_hosted_tree',
+	'Httoop.Parser.setRequestHost_rel',
+	'Httoop.Parser.parseBody_sameH',
+	'Httoop.Parser.c06_host_invariant_witness',
 ]
 TRUSTED = [
 	'the URI model (parse, normalize) of C10-C12 and the Host model (Model/Host.lean incl. the glibc inet_pton transcription) are tied by their own correspondences; hosts needing the idna codec are outside the model (skipped)',
@@ -262,5 +267,5 @@ def finding_still_fails(k):
 
 LEVEL_TEXT = ('Theorems for ALL request lines (every octet string as target): a request that gets past the start-line hooks has a path that normalisation leaves unchanged, hence - by C11\'s abspath theorems - is "*", empty, or starts with "/" '
 	'and has no "." / ".." / empty segment and no slash run, whatever percent-encoding spelled the dots (they are decoded before the comparison; an encoded slash stays inside its segment); its scheme class is http/https, it has no user information or fragment; '
-	'anything else is a 301/400/505. As an INVARIANT OF THE STATE MACHINE (delivered_requests_sanitised): for every sequence of parse() calls with any octets, every request handed out has such a URI - the start-line phase establishes it, every later phase (header blocks, Host hook, body, trailers, delivery) leaves path, user information and fragment untouched, across calls. Host and port are set from the parsed Host field, and the trailer section of a chunked request cannot change that field afterwards (Props/C06Trailers.lean: Host is among the names a Trailer field must not announce - table of the tree, T1, since the F68 repair - hence mergeTrailers_host_untouched / parseTrailers_host_untouched for every state and section). Tied by correspondence over the token alphabet x Host forms.')
+	'anything else is a 301/400/505. As an INVARIANT OF THE STATE MACHINE (delivered_requests_sanitised): for every sequence of parse() calls with any octets, every request handed out has such a URI - the start-line phase establishes it, every later phase (header blocks, Host hook, body, trailers, delivery) leaves path, user information and fragment untouched, across calls. Host and port are set from the parsed Host field, and the trailer section of a chunked request cannot change that field afterwards (Props/C06Trailers.lean: Host is among the names a Trailer field must not announce - table of the tree, T1, since the F68 repair - hence mergeTrailers_host_untouched / parseTrailers_host_untouched for every state and section). THE HOST CLAUSE AS AN INVARIANT (Props/C06HostInvariant.lean, delivered_requests_hosted / _tree): for every sequence of parse() calls with any octets, every request handed out that has a Host field has one that parses and names exactly the host and the port of its effective URI (no port = the default of the scheme class) - the field of the record as delivered: the header hook establishes the relation (setRequestHost_rel), the body phase (length determination, chunk reader, trailer merge, the rewriting of Content-Length / Transfer-Encoding on delivery) touches neither the request URI nor the Host field (parseBody_sameH, bodyComplete_host). Tied by correspondence over the token alphabet x Host forms.')
 LEVEL_NOTE = 'Trusted: Lean kernel; URI/Host models tested against the code (inet_pton transcription validated on 180k addresses); idna hosts skipped.'
